@@ -122,7 +122,7 @@ def run_case(work, idx, case, t0):
     before = {}
     for t in watch:
         before.update(snapshot(job, t))
-    env = dict(case.env)
+    env = {k: str(v).replace("@job", str(job)) for k, v in case.env.items()}
     r = generate(job, case.strategy, audit=True, config=(case.config_name if case.config_name else None), env=env)
     after = {}
     for t in watch:
